@@ -2,10 +2,11 @@
 # False-alarm self-test: behaviour-preserving refactorings (made by sub-agents that saw neither /verif nor the
 # properties; each keeps the suite at 2382 passes) are applied to /repo one at a time; the checks of the properties
 # that depend on the touched code must NOT report a violation (exit 0; exit 2 = undecided is tolerated and listed).
+# Group I is hand-made (aimed at the round-5 rules: faithful memo, tokenize preamble, click.Path keywords, += on a copy).
 # Usage: tools/run_refactors.sh [group ...] -> refactors/RESULTS.txt
 set -u
 cd /verif
-declare -A CHECKS=( [G]="C01 C02 C03 C04 C07 C13 C20" [H]="C01 C03 C05 C06 C07 C08 C13 C20" [A]="C01 C02 C03 C04 C05 C13 C18" [B]="C01 C03 C04 C05 C07 C13 C20" [C]="C12 C13" [D]="C16 C17 C18 C19" [E]="C08 C11 C13" [F]="C09 C10 C14 C15 C19" )
+declare -A CHECKS=( [I]="C01 C03 C06 C09 C10 C13 C19 C20" [G]="C01 C02 C03 C04 C07 C13 C20" [H]="C01 C03 C05 C06 C07 C08 C13 C20" [A]="C01 C02 C03 C04 C05 C13 C18" [B]="C01 C03 C04 C05 C07 C13 C20" [C]="C12 C13" [D]="C16 C17 C18 C19" [E]="C08 C11 C13" [F]="C09 C10 C14 C15 C19" )
 groups=${*:-$(ls refactors | grep '^[A-Z]$')}
 if [ -n "$(git -C /repo status --porcelain)" ]; then echo "/repo working tree is not clean"; exit 3; fi
 for g in $groups; do
